@@ -54,6 +54,10 @@ impl Profile {
     pub fn tame() -> Self {
         Profile { nested_arrays: false, ..Profile::rich() }
     }
+    /// many components and operations: enough entries for an unordered container's iteration order to vary
+    pub fn big() -> Self {
+        Profile { max_components: 20, max_ops: 12, ..Profile::rich() }
+    }
     pub fn rich() -> Self {
         Profile { hard_names: true, docs: true, max_components: 8, max_ops: 6, synth_names: true, ..Profile::safe() }
     }
